@@ -29,14 +29,15 @@ NoStake == [ok |-> FALSE, pk |-> "", start |-> Zero, end |-> Zero, syms |-> Zero
 NoMint == [decoded |-> FALSE, difficulty |-> Zero, parsed |-> FALSE, proof |-> "none"]
 T(id, k, i, o, f, cv) == [id |-> id, hashb |-> B1(4), kind |-> k, ins |-> i, outs |-> o, fee |-> N(f), covs |-> cv, data |-> <<>>, sigs |-> <<>>,
                           size |-> 1, facts |-> [hash |-> <<>>, sig |-> <<>>], pk |-> NoPk, stakedoc |-> NoStake, mint |-> NoMint, marker |-> "fdp:" \o id]
-U == [t \in {"F1", "A", "B", "C", "D", "E", "G", "N", "X", "I", "J"} |->
+U == [t \in {"F1", "A", "B", "C", "D", "E", "G", "H", "N", "X", "I", "J"} |->
   CASE t = "F1" -> T(t, KIND_FAUCET, <<>>, <<O("T", 4, "MEL"), O("I0", 2, "MEL")>>, 0, <<>>)
     [] t = "A"  -> T(t, KIND_NORMAL, <<In("F1", 0)>>, <<O("T", 2, "MEL"), O("T", 2, "MEL")>>, 0, <<CovT>>)
     [] t = "B"  -> T(t, KIND_NORMAL, <<In("A", 0)>>, <<O("T", 2, "MEL")>>, 0, <<CovT>>)
-    [] t = "C"  -> T(t, KIND_NORMAL, <<In("A", 0)>>, <<O("T", 1, "MEL"), O(DESTROY_COV, 1, "MEL")>>, 0, <<CovT>>)   \* conflicts with B; burns 1
+    [] t = "C"  -> T(t, KIND_NORMAL, <<In("A", 0)>>, <<O(DESTROY_COV, 1, "MEL"), O("T", 1, "MEL")>>, 0, <<CovT>>)   \* conflicts with B; burns 1 (first output: the survivor keeps index 1)
     [] t = "D"  -> T(t, KIND_NORMAL, <<In("A", 1), In("B", 0)>>, <<O("T", 3, "MEL")>>, 1, <<CovT>>)                  \* depends on A and B, tips 1
     [] t = "E"  -> T(t, KIND_NORMAL, <<In("A", 1)>>, <<O("T", 3, "MEL")>>, 0, <<CovT>>)                               \* unbalanced
     [] t = "G"  -> T(t, KIND_NORMAL, <<In("gen", 0), In("gen", 0)>>, <<O("T", 6, "MEL")>>, 0, <<CovT>>)               \* same input twice
+    [] t = "H"  -> T(t, KIND_NORMAL, <<In("A", 0), In("A", 0)>>, <<O("T", 4, "MEL")>>, 0, <<CovT>>)                   \* a coin that may be created in the same batch, twice
     [] t = "N"  -> T(t, KIND_NORMAL, <<In("gen", 0)>>, <<O("T", 3, "MEL"), O("T", 5, "NEW")>>, 0, <<CovT>>)           \* issues a custom token
     [] t = "X"  -> T(t, KIND_NORMAL, <<In("nope", 0)>>, <<O("T", 1, "MEL")>>, 0, <<CovT>>)                            \* missing input
     [] t = "I"  -> T(t, KIND_NORMAL, <<In("A", 1), In("F1", 1)>>, <<O("T", 4, "MEL")>>, 0, <<CovT, CovI>>)            \* index-bound coin spent at position 1
